@@ -115,6 +115,16 @@ def session_run(c):
             T.append(('broker.equity', None))
             return {'master': SymNum(EQUITYF(z3.IntVal(len(T))))}
 
+        def __getattr__(self, name):
+            # the rest of the broker API: callable, logged, answers an unrelated arbitrary number
+            if name.startswith('__'):
+                raise AttributeError(name)
+
+            def other(*a, **k):
+                T.append(('broker.other:' + name, None))
+                return SymNum(c.fresh('broker_' + name, R))
+            return other
+
     class Signals:
         def update(self, dt):
             T.append(('signals.update', lift(dt)))
@@ -156,6 +166,9 @@ def session_run(c):
         c.ob('equity-point-stamped-at-the-event-time', AND(*[t[1] == ts for t in T if t[0] == 'equity.append']))
         c.ob('at-most-once-each', all(names.count(n) <= 1 for n in ('qts', 'signals.update', 'equity.append', 'broker.equity')))
         order = ['broker.update', 'signals.update', 'qts', 'broker.equity', 'equity.append']
+        others = [n for n in names if n not in order]
+        c.ob('no-other-broker-call-in-the-loop', not others, kind='A')
+        names = [n for n in names if n in order]
         c.ob('order-is-update-signals-rebalance-equity', names == sorted(names, key=order.index))
         eq_reads = [i for i, t in enumerate(T) if t[0] == 'broker.equity']
         apps = [t for t in T if t[0] == 'equity.append']
